@@ -223,6 +223,8 @@ Definition snap_ok (st : dstate) (s : list (Z * bool * option Z)) : bool :=
              && optZ_eqb (pending st g) pend) s.
 (* case: observed steps up to the end of the schedule, the actor's dictionaries at that point,
    observed steps of the drain phase, the actor's dictionaries at the end *)
+Definition mkc (o1 : list (devent * list dout)) (s1 : list (Z * bool * option Z))
+               (o2 : list (devent * list dout)) (s2 : list (Z * bool * option Z)) := (o1, s1, o2, s2).
 Definition check (c : list (devent * list dout) * list (Z * bool * option Z)
                       * list (devent * list dout) * list (Z * bool * option Z)) : bool :=
   let '(o1, s1, o2, s2) := c in
@@ -308,7 +310,7 @@ def shrink_case(case):
 class DistStream(Stream):
     name = "schedule"
     coq_header = HEADER
-    n_quick = 700
+    n_quick = 1500
     n_thorough = 6000
     exhaustive_quick = 4
     exhaustive_thorough = 6
@@ -325,8 +327,8 @@ class DistStream(Stream):
 
     def to_coq(self, case, obs):
         log, n = obs["log"], obs["n_mid"]
-        return (f"({c_steps(observed_steps(log[:n]))}, {c_snapshot(obs['mid'])}, "
-                f"{c_steps(observed_steps(log[n:]))}, {c_snapshot(obs['final'])})")
+        return (f"(mkc {c_steps(observed_steps(log[:n]))} {c_snapshot(obs['mid'])} "
+                f"{c_steps(observed_steps(log[n:]))} {c_snapshot(obs['final'])})")
 
     def show_term(self, case, obs):
         return f"dreplay d_init {c_steps(observed_steps(obs['log']))}"
